@@ -1,10 +1,11 @@
 pub mod c01;
+pub mod c12;
 pub mod corpus;
 pub mod lexemes;
 
 use crate::engine::PropDef;
 
 pub fn registry() -> &'static [PropDef] {
-    static REG: &[PropDef] = &[c01::DEF];
+    static REG: &[PropDef] = &[c01::DEF, c12::DEF];
     REG
 }
